@@ -70,19 +70,25 @@ def main():
     def mk_replay(rec):
         def replay(_m):
             rec["model"] = _m
-            sn = S.snippet(P, rec, names, nsp)       # reads the solver model: main thread
+            sns = S.snippet_alternatives(P, rec, names, nsp)       # reads the solver model: main thread
             rec["model"] = None
-            if sn is None:
+            if not sns:
                 return {"reproduced": False, "detail": "no Garden snippet for this step"}
 
             def native_part():
-                outs, alive = native_resume(*sn)
-                if not outs or outs[0][0] != "err":
-                    return {"reproduced": False, "artefact": list(sn), "detail": f"snippet did not fail: {outs[:1]}"}
-                same = all(o == outs[0] for o in outs[1:]) and len(outs) >= 2
-                return {"reproduced": (not same) or (not alive),
-                        "artefact": {"prelude": sn[0], "input": sn[1], "then": ":resume x2"},
-                        "detail": f"responses={outs} session_alive_after={alive}"}
+                last = None
+                for sn in sns:
+                    outs, alive = native_resume(*sn)
+                    if not outs or outs[0][0] != "err":
+                        last = {"reproduced": False, "artefact": list(sn), "detail": f"snippet did not fail: {outs[:1]}"}
+                        continue
+                    same = all(o == outs[0] for o in outs[1:]) and len(outs) >= 2
+                    last = {"reproduced": (not same) or (not alive),
+                            "artefact": {"prelude": sn[0], "input": sn[1], "then": ":resume x2"},
+                            "detail": f"responses={outs} session_alive_after={alive}"}
+                    if last["reproduced"]:
+                        return last
+                return last
             return native_part
         return replay
 
@@ -98,7 +104,13 @@ def main():
         srec = rec["steps"][-1]
         n_err += 1
         origin = srec.get("err_origin")
-        site_base = f"{S.job_family(label)}/{origin[0] if origin else 'tail-expression-error'}"
+        if not origin:
+            where = "tail-expression-error"
+        elif origin[0] in ("eval_built_in_call", "eval_built_in_method_call"):
+            where = origin[0]            # the arm (job family) already localises the site inside the dispatchers
+        else:
+            where = S.return_ordinal(P, origin)   # fn#k: k-th `return` of a small function
+        site_base = f"{S.job_family(label)}/{where}"
         exact = srec["after_restore"] == srec["before"] and srec["resumed_same_entry"]
         prove_tainted_ok(f"{label}/path:restore-exact", r.pc, exact, site_base + "/restore-order",
                          f"after the error the operand stack is {srec['after_restore']} but the step started from "
